@@ -26,34 +26,61 @@ Record rstate : Type := { r_map : amap; r_owed : list ip }.
 
 Definition remove_ip (k : ip) (l : list ip) : list ip := filter (fun x => negb (ip_eqb x k)) l.
 
-(* (address, online flag) pairs expected in this unit; [dom] enumerates candidate addresses in key order *)
-Definition expect (c : cfg) (dom : list ip) (r : rstate) (u : unit6) : list (ip * bool) * rstate :=
+(* address x was online before and is (still tracked and) offline after *)
+Definition flipb (a a' : amap) (x : ip) : bool :=
+  match a x, a' x with
+  | Some e, Some e' => a_online e && negb (a_online e')
+  | _, _ => false
+  end.
+
+Definition currentb (a : amap) (m : mac) (k : ip) : bool :=
+  match a k with Some e => (a_mac e =? m) && a_online e | None => false end.
+
+(* ---- per address: the notifications about address x that unit u owes (the "due changes") ---- *)
+Definition due (c : cfg) (r : rstate) (u : unit6) (x : ip) : list (ip * bool) :=
   match u with
   | UFrame f now =>
       match ref_event c f with
-      | None => ([], r)
+      | None => []
       | Some (m, k) =>
-          let a := r_map r in
-          let a' := sight m k now a in
-          let current := match a k with Some e => (a_mac e =? m) && a_online e | None => false end in
-          let flipped := filter (fun k' => negb (ip_eqb k' k) &&
-                                  match a k', a' k' with
-                                  | Some e, Some e' => a_online e && negb (a_online e')
-                                  | _, _ => false end) dom in
-          let owed := existsb (ip_eqb k) (r_owed r) in
-          (map (fun k' => (k', false)) flipped ++ (if negb current || owed then [(k, true)] else []),
-           {| r_map := a'; r_owed := remove_ip k (r_owed r) |})
+          if ip_eqb x k
+          then (if negb (currentb (r_map r) m k) || existsb (ip_eqb k) (r_owed r) then [(k, true)] else [])
+          else (if flipb (r_map r) (sight m k now (r_map r)) x then [(x, false)] else [])
+      end
+  | UPurge now => if flipb (r_map r) (age c now (r_map r)) x then [(x, false)] else []
+  | UOther => []
+  end.
+
+Definition rnext (c : cfg) (r : rstate) (u : unit6) : rstate :=
+  match u with
+  | UFrame f now =>
+      match ref_event c f with
+      | None => r
+      | Some (m, k) => {| r_map := sight m k now (r_map r); r_owed := remove_ip k (r_owed r) |}
       end
   | UPurge now =>
-      let a := r_map r in
-      let a' := age c now a in
-      let aged := filter (fun k => match a k, a' k with
-                                   | Some e, Some e' => a_online e && negb (a_online e')
-                                   | _, _ => false end) dom in
-      (map (fun k => (k, false)) aged,
-       {| r_map := a'; r_owed := filter (fun x => negb (existsb (ip_eqb x) aged)) (r_owed r) |})
-  | UOther => ([], r)
+      {| r_map := age c now (r_map r);
+         r_owed := filter (fun x => negb (flipb (r_map r) (age c now (r_map r)) x)) (r_owed r) |}
+  | UOther => r
   end.
+
+(* ---- the same as one list per unit, over an enumeration [dom] of candidate addresses (executable) ---- *)
+Definition expect (c : cfg) (dom : list ip) (r : rstate) (u : unit6) : list (ip * bool) * rstate :=
+  (match u with
+   | UFrame f now =>
+       match ref_event c f with
+       | None => []
+       | Some (m, k) =>
+           map (fun k' => (k', false))
+               (filter (fun k' => negb (ip_eqb k' k) && flipb (r_map r) (sight m k now (r_map r)) k') dom) ++
+           (if negb (currentb (r_map r) m k) || existsb (ip_eqb k) (r_owed r) then [(k, true)] else [])
+       end
+   | UPurge now => map (fun k => (k, false)) (filter (flipb (r_map r) (age c now (r_map r))) dom)
+   | UOther => []
+   end, rnext c r u).
 
 Definition rinit (c : cfg) (now : Z) : rstate :=
   {| r_map := ref_init c now; r_owed := [own_ip4 c; rt_ip4 c] |}.
+
+(* the notifications about one address, in emission order *)
+Definition about (x : ip) (l : list (ip * bool)) : list (ip * bool) := filter (fun p => ip_eqb (fst p) x) l.
